@@ -3,6 +3,7 @@ from plib import *
 from props.builder import Prog
 from props.common import ProgRunner
 
+EXTRA_AUDITS = ["WidgetTie"]
 LEAN_TARGETS = ["Plonk.Props.C11", "Plonk.Props.WidgetTie"]
 ASSUMPTIONS = ["prover success coincides with 'every row identity holds' outside explicit bad-challenge sets (RO assumption)"]
 THEOREMS_NOTE = "Plonk/Props/C11.lean"
